@@ -75,6 +75,18 @@ def run(ctx):
         s, _ = worldgen.render(W, root, rng)
         sites.update(s)
         wids.append(wid)
+    # two single-file packages in which an annotated declaration of the imported package and an UNRELATED declaration of
+    # the importer start at the same byte offset: under go vet every package has a FileSet of its own, so the two have
+    # the same token.Pos there (in the stand-alone driver they share one FileSet and differ)
+    for wid in wids[:2]:
+        btxt = 'package cob\n\nimport "w/%s/co/coa"\n\n// Seed is ordinary.\nfunc Seed() int { return coa.Fixture() + coa.Plain() }\n\n// T2 is ordinary.\ntype T2 struct{ F int }\n' % wid
+        off = btxt.index("func Seed")
+        atxt = "package coa\n\n// " + "x" * (off - 30) + "\n// @testonly\nfunc Fixture() int { return 1 }\n\nfunc Plain() int { return 2 }\n"
+        assert atxt.index("func Fixture") == off
+        for rel, text in (("co/coa/a.go", atxt), ("co/cob/b.go", btxt)):
+            pth = os.path.join(root, wid, rel)
+            os.makedirs(os.path.dirname(pth), exist_ok=True)
+            open(pth, "w").write(text)
     dump = os.path.join(d, "dump.sx")
     src, serr = worlds.skel(ctx, root, dump)
     found = False
